@@ -260,10 +260,11 @@ Definition render_copy (m : inmsg) (a : appmsg) : appmsg :=
   | Some _ => a
   end.
 
-(* pipe.add_response(res, is_last=True) seen from the TokenManager: on_event sends, then the pipe ends and on_end
-   (tokenmanager.py:160) drops the incoming_requests entry *)
+(* pipe.add_response(res, is_last=True) seen from the TokenManager: on_event (tokenmanager.py:128) fills in the request's
+   No-Response option where the response has none (also for responses built from exceptions, as fixed in 3a77ec2) and sends;
+   then the pipe ends and on_end (tokenmanager.py:166) drops the incoming_requests entry *)
 Definition finish (m : inmsg) (a : appmsg) (s : st) : st :=
-  let s := send_message m a s in
+  let s := send_message m (render_copy m a) s in
   set_incoming (aremove inckey_eqb (i_token m, i_remote m) (incoming s)) s.
 
 (* pipe.py:245 error_to_message *)
